@@ -26,6 +26,7 @@ RULE = (
     "table has a space-bearing name or '$' / '-' shorthand and at least one chunking splits inside the header "
     "or inside the zlib stream; distinct by (bytes, chunking)."
 )
+RULE += (' (large) inventories of 400-6000 poorly compressible entries (several 16 KiB read buffers) under reads of 16 KiB, 16 KiB +- 1, 4 KiB, 1000, 1 MiB and a ragged schedule, same oracles.')
 ASSUMPTIONS = [
     "Sphinx 8.2.3's InventoryFile.loads is the reference loader",
     "names do not contain the exotic line separators that str.splitlines honours but a '\\n' split does not "
